@@ -94,12 +94,14 @@ package dkg
 //@ func (*DKG).ProcessDeals behavior checks
 //@   nosafety
 //@   requires d != nil && wfStore(d.pubKeys) && d.commits != nil && d.deals != nil && (forall k string :: k in d.deals ==> d.deals[k] != nil)
-//@   loop 0 invariant wfStore(d.pubKeys) && d.commits != nil && (forall k string :: k in d.deals ==> d.deals[k] != nil)
+// (loop 0 collects the stored deals, which are then sorted by dealer index; loop 1 checks them in that order)
+//@   loop 0 invariant wfStore(d.pubKeys) && d.commits != nil && $commitChecks == 0 && $commitOK == 0
+//@   loop 1 invariant wfStore(d.pubKeys) && d.commits != nil
 //@   prologue $commitChecks = 0
 //@   prologue $commitOK = 0
 //@   modifies *
 //@   modifies $dec, $commitChecks, $commitOK
-//@   loop 0 invariant[C11.deals.all] $commitChecks == $commitOK
+//@   loop 1 invariant[C11.deals.all] $commitChecks == $commitOK
 //@   ensures[C11.deals.all] result1 == nil ==> $commitChecks == $commitOK
 
 // the public keyring handed to the reconstruction is a keyring whenever no error is reported
